@@ -533,10 +533,6 @@ func (w *vC16World) doWrite(rt *rapid.T, cred vC16Cred, db string, v2 bool, clas
 
 func vC16DrawRequest(rt *rapid.T, m *vC16Model, def string, ex vExcluder) (stmts []vC16Stmt, q *influxql.Query) {
 	n := rapid.SampledFrom([]int{1, 1, 1, 2, 2, 3, 4}).Draw(rt, "nStmts")
-	if len(m.Users) == 0 && n > 1 {
-		ex.Exclude(vSigZeroUsersMulti)
-		n = 1
-	}
 	var texts []string
 	for i := 0; i < n; i++ {
 		var s vC16Stmt
@@ -703,10 +699,12 @@ func vC16ClassList(m map[string]bool) []string {
 	return out
 }
 
-// TestVerifC16KFHTTPFirstAdmin: the zero-users known finding seen end to end: an unauthenticated
-// request whose first statement creates an administrator reaches the executor with all its statements.
-func TestVerifC16KFHTTPFirstAdmin(t *testing.T) {
-	st := verifkit.For("C16", "TestVerifC16KFHTTPFirstAdmin", "directed: unauthenticated multi-statement /query requests at zero users")
+// TestVerifC16HTTPFirstAdminOnly is the directed regression for the repaired defect
+// first-admin-request-carries-extra-statements (fix: commit "with no users, authorize only a request that
+// solely creates the first admin"): at zero users an unauthenticated request whose first statement creates
+// an administrator must not have further statements executed.
+func TestVerifC16HTTPFirstAdminOnly(t *testing.T) {
+	st := verifkit.For("C16", "TestVerifC16HTTPFirstAdminOnly", "directed: unauthenticated multi-statement /query requests at zero users whose first statement creates an administrator; one case per request")
 	defer st.Flush()
 	vBedOnce.Do(func() { vBed, vBedErr = vNewAuthBed() })
 	if vBedErr != nil {
@@ -716,10 +714,10 @@ func TestVerifC16KFHTTPFirstAdmin(t *testing.T) {
 	if err := vBed.install(fresh); err != nil {
 		vC16Inconclusive(err.Error())
 	}
-	n := 0
 	qs := []string{
 		"CREATE USER a WITH PASSWORD 'x' WITH ALL PRIVILEGES; DROP DATABASE db0",
 		"CREATE USER a WITH PASSWORD 'x' WITH ALL PRIVILEGES; SELECT * FROM db1..m; DROP SERIES FROM m",
+		"CREATE USER a WITH PASSWORD 'x' WITH ALL PRIVILEGES; CREATE USER b WITH PASSWORD 'y' WITH ALL PRIVILEGES",
 	}
 	for _, q := range qs {
 		r := httptest.NewRequest("POST", "/query", strings.NewReader(url.Values{"q": {q}, "db": {"db0"}}.Encode()))
@@ -728,16 +726,11 @@ func TestVerifC16KFHTTPFirstAdmin(t *testing.T) {
 		rec := httptest.NewRecorder()
 		vBed.h.ServeHTTP(rec, r)
 		ran, _ := vBed.exec.take()
-		if rec.Code == http.StatusOK && len(ran) > 1 {
-			n++
-			st.Case(true, q, "kf:reproduced")
-			st.Sample(fmt.Sprintf("POST /query q=%q without credentials -> %d, executed %v", q, rec.Code, ran))
-		} else {
-			st.Case(true, q, "kf:not-reproduced")
-			st.Sample(nil)
+		if len(ran) > 0 {
+			fmt.Printf("VERIF-CASE %s\n", q)
+			t.Fatalf("%s POST /query q=%q without credentials at zero users -> %d, executed %v", verifkit.Sig(vSigZeroUsersMulti), q, rec.Code, ran)
 		}
-	}
-	if n > 0 {
-		st.KnownReproduced(vSigZeroUsersMulti, fmt.Sprintf("with zero users an unauthenticated request whose first statement is CREATE USER ... WITH ALL PRIVILEGES has all its further statements executed (%d of %d directed requests)", n, len(qs)))
+		st.Case(true, q, fmt.Sprintf("status:%d", rec.Code))
+		st.Sample(fmt.Sprintf("POST /query q=%q without credentials -> %d, nothing executed", q, rec.Code))
 	}
 }
